@@ -20,13 +20,17 @@ from scen import Stmt, Variant, scenario, ninja_op
 # ---------------------------------------------------------------------------------------------
 
 def _signal_case(args):
-    sc, wait_index, signame, partial, ninja, vcmd, nx = args
+    sc, wait_index, signame, partial, ninja, vcmd, nx = args[:7]
+    # "process": the signal goes to the ninja process alone (kill <pid>); "group": to its process group, which is what a
+    # terminal does on Ctrl-C / hang-up -- console-pool commands live in that group, all others in groups of their own
+    delivery = args[7] if len(args) > 7 else "process"
     sig = getattr(signal, signame)
     ops = sc["ops"]
     build = next(i for i, o in enumerate(ops) if o["op"] == "ninja" and not o.get("faults") and not o.get("crash")
                  and not o.get("interrupt"))
     r = rb.Real(sc, ninja, vcmd, compound=True)
-    out = {"scenario": sc["name"], "signal": signame, "wait": wait_index, "partial": partial, "problems": [], "reached": False}
+    out = {"scenario": sc["name"], "signal": signame, "wait": wait_index, "partial": partial, "problems": [], "reached": False,
+           "delivery": delivery, "facts": {}}
     try:
         r.setup()
         for i in sc.get("init", []):
@@ -44,15 +48,21 @@ def _signal_case(args):
             # the first running command at the signal point has already overwritten its outputs
             op = dict(op)
         before = r.snapshot()
-        o = r.run_ninja_signal(op, wait_index, sig, partial)
+        o = r.run_ninja_signal(op, wait_index, sig, partial, delivery)
         if not o.get("signalled"):
             return out      # the build finished before this wait index
         out["reached"] = True
+        if o.get("console_commands_not_stopped"):
+            out["facts"]["only_console_commands_kept_running_after_a_signal_to_the_ninja_process_alone"] = True
+            out["problems"].append("console-pool command(s) %s were not stopped by %s sent to the ninja process alone: ninja "
+                                   "waited for them to end by themselves" % (o["console_commands_not_stopped"], signame))
         if signame == "SIGKILL":
             # the whole tree is killed: nothing to check about ninja's own cleanup
             r.kill_strays()
         else:
-            if o["exit"] != 130:
+            if o.get("no_exit"):
+                out["problems"].append("ninja did not exit within 5 s of %s" % signame)
+            elif o["exit"] != 130:
                 out["problems"].append("exit status %s instead of 130 after %s" % (o["exit"], signame))
             if os.path.exists(r.path(".ninja_lock")):
                 out["problems"].append(".ninja_lock left behind after %s" % signame)
@@ -100,7 +110,7 @@ def _signal_case(args):
     return out
 
 
-def _run_ninja_signal(self, op, wait_index, sig, partial):
+def _run_ninja_signal(self, op, wait_index, sig, partial, delivery="process"):
     """Like run_ninja with the default schedule, but at wait `wait_index` the signal is sent.
     partial: the oldest running command first overwrites its outputs (then blocks again)."""
     for n in os.listdir(self.ctl):
@@ -146,16 +156,29 @@ def _run_ninja_signal(self, op, wait_index, sig, partial):
                     time.sleep(0.001)
                 obs["partial_ids"].append(self.unsanitize(ident))
                 self.fence()
-            if sig == signal.SIGKILL:
-                os.kill(proc.pid, sig)
+            if delivery == "group":
+                os.killpg(proc.pid, sig)      # start_new_session: ninja leads its own group
             else:
                 os.kill(proc.pid, sig)
             obs["signalled"] = True
             try:
-                proc.wait(timeout=5)
+                proc.wait(timeout=2 if delivery == "process" else 5)
             except subprocess.TimeoutExpired:
-                obs["no_exit"] = True
-                proc.kill()
+                console = {sanitize_id(st["outs"][0]) for st in self.sc["variants"][self.variant]["stmts"]
+                           if st.get("pool") == "console"}
+                alive = [i for i in self.started_files() if i not in released and i in console]
+                if delivery == "process" and alive:
+                    # ninja leaves console commands to the terminal; nobody signalled them here: let them end by themselves
+                    obs["console_commands_not_stopped"] = [self.unsanitize(i) for i in alive]
+                    for i in alive:
+                        for gate in ("go.", "go2."):
+                            with open(os.path.join(self.ctl, gate + i), "w") as g:
+                                g.write("ok")
+                try:
+                    proc.wait(timeout=5)
+                except subprocess.TimeoutExpired:
+                    obs["no_exit"] = True
+                    proc.kill()
             break
         ident = running[0]
         self.fence()
@@ -167,12 +190,13 @@ def _run_ninja_signal(self, op, wait_index, sig, partial):
             time.sleep(0.001)
         self.fence()
         wi += 1
-    out = proc.communicate()[0].decode("latin-1")
+    out = self.drain(proc, obs)
     obs["exit"] = proc.returncode if proc.returncode is None or proc.returncode >= 0 else 128 - proc.returncode
     obs["out"] = out
     return obs
 
 
+sanitize_id = rb.sanitize
 rb.Real.run_ninja_signal = _run_ninja_signal
 
 
@@ -189,7 +213,9 @@ def signals(tier="quick"):
                 for partial in (False, True):
                     if tier == "quick" and signame in ("SIGHUP",) and partial:
                         continue
-                    work.append((sc, wi, signame, partial, ninja, vcmd, nx))
+                    work.append((sc, wi, signame, partial, ninja, vcmd, nx, "process"))
+                    if signame != "SIGKILL" and any(st.get("pool") == "console" for st in sc["variants"][0]["stmts"]):
+                        work.append((sc, wi, signame, partial, ninja, vcmd, nx, "group"))
     with multiprocessing.Pool(16) as pool:
         res = pool.map(_signal_case, work, chunksize=1)
     reached = [r for r in res if r["reached"]]
@@ -589,7 +615,7 @@ def replay(rj):
         elif rj["kind"] == "signal-outside-wait":
             o = _signal_outside_wait_case((rj["signal"], ninja))
         elif rj["kind"] == "signal":
-            o = _signal_case((rj["scenario"], rj["wait"], rj["signal"], rj["partial"], ninja, vcmd, nx))
+            o = _signal_case((rj["scenario"], rj["wait"], rj["signal"], rj["partial"], ninja, vcmd, nx, rj.get("delivery", "process")))
         else:
             o = _jobserver_case((rj["scenario"], rj["tokens"], rj["opi"], rj["choices"], rj["signal_at"], ninja, vcmd,
                                  rj.get("explicit_j")))
@@ -658,6 +684,15 @@ def c07_process_level(c):
     scs = {s["name"]: s for s in templates_c07.templates(c.tier)}
     seen = set()
     for p in r["problems"]:
+        if p["facts"]:
+            v = {"clause": "process-level-signal", "facts": p["facts"]}
+            for f in c.findings:
+                if f.get("property") == "C07" and nxcheck.matches(v, f):
+                    c.known(f["id"], "%s [%s] e.g. %s at wait %d of %s" % (f["what"], f["id"], p["signal"], p["wait"], p["scenario"]))
+                    p["problems"] = [x for x in p["problems"] if not x.startswith("console-pool command(s)")]
+                    break
+        if not p["problems"]:
+            continue
         key = (p["signal"], tuple(sorted(x.split("'")[0][:40] for x in p["problems"])))
         if key in seen:
             continue
@@ -667,7 +702,8 @@ def c07_process_level(c):
         c.violation("C07/process-level %s at wait %d of %s (partial=%s): %s" % (p["signal"], p["wait"], p["scenario"], p["partial"],
                                                                               "; ".join(p["problems"])),
                     {"engine": "rb", "kind": "signal", "scenario": scs[p["scenario"]], "wait": p["wait"], "signal": p["signal"],
-                     "partial": p["partial"], "problems": p["problems"]})
+                     "partial": p["partial"], "delivery": p.get("delivery", "process"), "clause": "process-level-signal",
+                     "facts": p["facts"], "problems": p["problems"]})
     return {"real_signal_cases": r["cases"], "real_signal_cases_reaching_their_gate": r["reached"],
             "real_signal_samples": r["sample"]}
 
